@@ -12,7 +12,8 @@ from cryptography.hazmat.primitives.asymmetric.ec import EllipticCurvePublicKey
 from cryptography.hazmat.primitives.asymmetric.ec import EllipticCurvePublicNumbers
 
 from authlib.common.encoding import base64_to_int
-from authlib.common.encoding import int_to_base64
+from authlib.common.encoding import to_unicode
+from authlib.common.encoding import urlsafe_b64encode
 
 from ..rfc7517 import AsymmetricKey
 
@@ -80,19 +81,21 @@ class ECKey(AsymmetricKey):
 
     def dumps_private_key(self):
         numbers = self.private_key.private_numbers()
+        size = self.private_key.curve.key_size
         return {
             "crv": self.CURVES_DSS[self.private_key.curve.name],
-            "x": int_to_base64(numbers.public_numbers.x),
-            "y": int_to_base64(numbers.public_numbers.y),
-            "d": int_to_base64(numbers.private_value),
+            "x": _coordinate_to_base64(numbers.public_numbers.x, size),
+            "y": _coordinate_to_base64(numbers.public_numbers.y, size),
+            "d": _coordinate_to_base64(numbers.private_value, size),
         }
 
     def dumps_public_key(self):
         numbers = self.public_key.public_numbers()
+        size = numbers.curve.key_size
         return {
             "crv": self.CURVES_DSS[numbers.curve.name],
-            "x": int_to_base64(numbers.x),
-            "y": int_to_base64(numbers.y),
+            "x": _coordinate_to_base64(numbers.x, size),
+            "y": _coordinate_to_base64(numbers.y, size),
         }
 
     @classmethod
@@ -106,3 +109,10 @@ class ECKey(AsymmetricKey):
         if not is_private:
             raw_key = raw_key.public_key()
         return cls.import_key(raw_key, options=options)
+
+
+def _coordinate_to_base64(num, curve_key_size):
+    # RFC 7518 section 6.2.1.2: the octet string is the full size of a coordinate
+    # for the curve, leading zero octets included.
+    length = (curve_key_size + 7) // 8
+    return to_unicode(urlsafe_b64encode(num.to_bytes(length, "big")))
